@@ -572,6 +572,7 @@ type recQ struct {
 	}
 	in     innerQ
 	mu     simrt.Mutex
+	serial bool // serialise enqueues with the other wrapper calls (C04 layer W: record order = queue order)
 	items  []qItem
 	qi     int
 	lens   []lenObs
@@ -597,7 +598,7 @@ func newRecQ(wd *World, f interface {
 	innerQ
 	Enqueue(item any, priority int) bool
 }) *recQ {
-	r := &recQ{wd: wd, qi: len(wd.qs)}
+	r := &recQ{wd: wd, qi: len(wd.qs), serial: wd.root.cfg.Prop == "C04"}
 	if f != nil {
 		r.fifo, r.in = f, f
 	} else {
@@ -618,25 +619,46 @@ func subOf(item any) int {
 // serialises them anyway; Len stays outside, it is the lock-free read).
 func (r *recQ) Enqueue(item any) bool {
 	sub := subOf(item)
-	r.mu.Lock()
+	if r.serial {
+		r.mu.Lock()
+		ok := r.fifo.Enqueue(item)
+		if ok {
+			r.remember(item, sub)
+		}
+		r.wd.root.rec.qEnq(r.wd, r.qi, sub, ok)
+		r.mu.Unlock()
+		return ok
+	}
+	// Not serialised: concurrent producers must be able to interleave inside the
+	// real Enqueue (segment hand-over!).  The item is registered first, so that a
+	// dequeue can always be attributed; the enqueue record follows the operation.
+	r.remember(item, sub)
 	ok := r.fifo.Enqueue(item)
-	if ok {
-		r.remember(item, sub)
+	if !ok {
+		r.forget(item)
 	}
 	r.wd.root.rec.qEnq(r.wd, r.qi, sub, ok)
-	r.mu.Unlock()
 	return ok
 }
 
 func (r recPQ) Enqueue(item any, priority int) bool {
 	sub := subOf(item)
-	r.mu.Lock()
+	if r.serial {
+		r.mu.Lock()
+		ok := r.heap.Enqueue(item, priority)
+		if ok {
+			r.remember(item, sub)
+		}
+		r.wd.root.rec.qEnq(r.wd, r.qi, sub, ok)
+		r.mu.Unlock()
+		return ok
+	}
+	r.remember(item, sub)
 	ok := r.heap.Enqueue(item, priority)
-	if ok {
-		r.remember(item, sub)
+	if !ok {
+		r.forget(item)
 	}
 	r.wd.root.rec.qEnq(r.wd, r.qi, sub, ok)
-	r.mu.Unlock()
 	return ok
 }
 
